@@ -15,9 +15,14 @@ import traceback
 from fractions import Fraction
 from math import gcd
 
+import os
+
 import jax
 
-jax.config.update("jax_enable_x64", True)
+if not os.environ.get("VERIF_WORKER_NO_X64"):
+    # most jobs switch 64-bit mode on first (as the repository's tests do); with VERIF_WORKER_NO_X64 the process leaves
+    # it to the solver's jax_double_precision - the problem's tables are then built in single precision first
+    jax.config.update("jax_enable_x64", True)
 import jax.numpy as jnp  # noqa: E402
 import numpy as np  # noqa: E402
 
